@@ -618,6 +618,215 @@ def oracle(ctx, budget):
                              f'allow_lower {allow_lower}, weights kind {wk}]', case)
 
 
+# ------------------------------------------------------------------------------ 2-D basis construction
+XZ_FAMILIES = ['identical', 'rel-close', 'abs-close', 'offset', 'different-length', 'z-unsorted', 'x-unsorted', 'independent']
+
+
+def gen_xz(rng, fam):
+    """Two axes for SplineBasis2D.  The close families are inside np.allclose's default tolerance (rtol 1e-5, atol 1e-8) but
+    not identical: any shortcut that reuses the row basis for the columns must show up."""
+    n = int(rng.integers(4, 26))
+    c = rng.random()
+    if c < 0.4:
+        lo = float(rng.choice([1000.0, 3000.0, 1.0, 250.0]))
+        x = np.linspace(lo, lo + float(rng.choice([100.0, 10.0, 1.0, 300.0])), n)
+    else:
+        lo, hi = gen_range(rng, False, 8)
+        x = np.sort(gen_x(rng, 'uniform', n, 8, lo, hi))
+    span = x[-1] - x[0]
+    if fam == 'identical':
+        z = x.copy()
+    elif fam == 'rel-close':
+        rel = 10.0 ** rng.uniform(-6, -4.05) * 0.9
+        z = x * (1 + rel * np.sin(np.arange(n) * float(rng.uniform(0.3, 2.0))))
+        z = np.sort(z)
+    elif fam == 'abs-close':
+        z = np.sort(x + float(rng.uniform(0.05, 0.9)) * 1e-5 * np.abs(x) * rng.uniform(-1, 1, n))
+        if rng.random() < 0.5:
+            z = x + 0.5e-5 * abs(x[0])      # a constant shift smaller than rtol * |x|
+    elif fam == 'offset':
+        z = x + span * float(rng.uniform(0.01, 2.0))
+    elif fam == 'different-length':
+        m = int(rng.integers(3, 26))
+        z = np.linspace(x[0], x[-1], m) if rng.random() < 0.5 else np.sort(rng.uniform(x[0], x[-1] + span, m))
+    elif fam == 'z-unsorted':
+        z = rng.permutation(x * (1 + 3e-6) if rng.random() < 0.5 else x)
+    elif fam == 'x-unsorted':
+        z = x * (1 - 2e-6)
+        x = rng.permutation(x)
+    else:
+        lo, hi = gen_range(rng, False, 8)
+        z = np.sort(gen_x(rng, 'onknot', int(rng.integers(3, 26)), int(rng.integers(2, 9)), lo, hi))
+    return x, z
+
+
+def gen_2d(rng, c):
+    fam = XZ_FAMILIES[c % len(XZ_FAMILIES)]
+    x, z = gen_xz(rng, fam)
+    same = (c // len(XZ_FAMILIES)) % 3 != 2       # mostly the SAME num_knots and degree in both dimensions
+    if same:
+        nk = int(rng.integers(2, 13))
+        k = int(rng.integers(0, 5))
+        nks, ks = (nk, nk), (k, k)
+    else:
+        nks = (int(rng.integers(2, 13)), int(rng.integers(2, 13)))
+        ks = (int(rng.integers(0, 5)), int(rng.integers(0, 5)))
+    return fam, x, z, nks, ks
+
+
+def face_split_ref(B):
+    """row i of the face-splitting product = kron(B[i], B[i])"""
+    n, p = B.shape
+    return (B[:, :, None] * B[:, None, :]).reshape(n, p * p)
+
+
+def check_basis_2d(x, z, nks, ks, scalar_args=False):
+    """SplineBasis2D: each side must be the 1-D B-spline basis of ITS OWN axis; returns (key, message) or None."""
+    S = su()
+    from pybaselines.two_d._spline_utils import SplineBasis2D
+    if scalar_args:
+        sb = SplineBasis2D(x, z, nks[0], ks[0])
+    else:
+        sb = SplineBasis2D(x, z, nks, ks)
+    for side, ax, nk, k, knots, B, G in (('r', x, nks[0], ks[0], sb.knots_r, sb.basis_r, sb._G_r),
+                                         ('c', z, nks[1], ks[1], sb.knots_c, sb.basis_c, sb._G_c)):
+        ref_knots = S._spline_knots(ax, nk, k, True)
+        if knots.shape != ref_knots.shape or not np.array_equal(knots, ref_knots):
+            return f'basis2d:knots_{side}', f'knots_{side} are not the knots of the {"x" if side == "r" else "z"} axis (_spline_knots)'
+        nb = len(ref_knots) - k - 1
+        if B.shape != (len(ax), nb):
+            return f'basis2d:basis_{side}:shape', f'basis_{side} has shape {B.shape} instead of {(len(ax), nb)}'
+        A = B.toarray()
+        ref = dense_ref(ax, ref_knots, k)
+        if np.abs(A - ref).max() > 1e-11:
+            i, j = np.unravel_index(int(np.argmax(np.abs(A - ref))), A.shape)
+            return f'basis2d:basis_{side}:vs-scipy', (f'basis_{side} entry ({i},{j}) = {A[i, j]!r} but the B-spline basis of its own axis '
+                                                      f'(SciPy reference) gives {ref[i, j]!r}')
+        if len(ax) <= 12 and len(ref_knots) <= 24:
+            R = cox_de_boor_ref(ax, ref_knots, k)
+            if np.abs(A - R).max() > 1e-12:
+                return f'basis2d:basis_{side}:vs-cox-de-boor', f'basis_{side} differs from the exact Cox-de Boor recursion on its own axis'
+        if np.abs(A.sum(axis=1) - 1).max() > 1e-11 or A.min() < 0:
+            return f'basis2d:basis_{side}:rowsum', f'basis_{side} rows do not sum to one / negative entry'
+        Gd = G.toarray() if hasattr(G, 'toarray') else np.asarray(G)
+        Gref = face_split_ref(A)
+        if Gd.shape != Gref.shape or np.abs(Gd - Gref).max() > 1e-14:
+            return f'basis2d:G_{side}', f'_G_{side} is not the face-splitting product of basis_{side}'
+    if tuple(sb._num_bases) != (sb.basis_r.shape[1], sb.basis_c.shape[1]):
+        return 'basis2d:num_bases', '_num_bases does not match the two bases'
+    Ar, Ac = sb.basis_r.toarray(), sb.basis_c.toarray()
+    if Ar.size * Ac.size <= 400000:
+        full = sb.basis.toarray()
+        ref_full = np.kron(dense_ref(x, sb.knots_r, ks[0]), dense_ref(z, sb.knots_c, ks[1]))
+        if full.shape != ref_full.shape or np.abs(full - ref_full).max() > 1e-11:
+            return 'basis2d:full', 'the full basis is not the Kronecker product of the reference bases of x and z'
+        pq = Ar.shape[1] * Ac.shape[1]
+        if pq <= 120:
+            W = np.random.default_rng(len(x) * 1000 + len(z)).random((len(x), len(z)))
+            W[W < 0.3] = 0.0
+            F = sb._make_btwb(W)
+            F = F.toarray() if hasattr(F, 'toarray') else np.asarray(F)
+            ref_F = ref_full.T @ (W.ravel()[:, None] * ref_full)
+            if F.shape != ref_F.shape or np.abs(F - ref_F).max() > 1e-9 * max(1.0, np.abs(ref_F).max()):
+                return 'basis2d:btwb', '_make_btwb differs from (B_r kron B_c)\' W (B_r kron B_c) built from the reference bases'
+    return None
+
+
+def pin_init_2d(ctx):
+    """Fail-closed pin of the statement shapes of SplineBasis2D.__init__: no branching, each side built by its own
+    _spline_knots / _spline_basis / _face_splitting call on its own axis."""
+    import ast
+    import os
+    from .common import REPO
+    ob = 'pin:SplineBasis2D.__init__(no-branches,two-independent-sides)'
+    ctx.obligations.append(ob)
+    try:
+        tree = ast.parse(open(os.path.join(REPO, 'pybaselines', 'two_d', '_spline_utils.py')).read())
+        cls = [n for n in tree.body if isinstance(n, ast.ClassDef) and n.name == 'SplineBasis2D'][0]
+        fn = [n for n in cls.body if isinstance(n, ast.FunctionDef) and n.name == '__init__'][0]
+        bad = [type(n).__name__ for n in ast.walk(fn)
+               if isinstance(n, (ast.If, ast.IfExp, ast.Try, ast.While, ast.For, ast.Match, ast.BoolOp, ast.With))]
+        if bad:
+            raise ValueError(f'control flow in __init__: {sorted(set(bad))}')
+        calls = {}
+        for n in ast.walk(fn):
+            if isinstance(n, ast.Call) and isinstance(n.func, ast.Name) and n.func.id in ('_spline_knots', '_spline_basis', '_face_splitting'):
+                calls.setdefault(n.func.id, []).append(ast.unparse(n.args[0]))
+        want = {'_spline_knots': ['self.x', 'self.z'], '_spline_basis': ['self.x', 'self.z'],
+                '_face_splitting': ['self.basis_r', 'self.basis_c']}
+        if calls != want:
+            raise ValueError(f'constructor calls {calls} instead of {want}')
+        targets = [ast.unparse(t) for n in ast.walk(fn) if isinstance(n, ast.Assign) for t in n.targets]
+        for name in ('self.knots_r', 'self.knots_c', 'self.basis_r', 'self.basis_c', 'self._G_r', 'self._G_c'):
+            if targets.count(name) != 1:
+                raise ValueError(f'{name} assigned {targets.count(name)} times')
+        ctx.discharged.append(ob)
+    except Exception as exc:  # noqa
+        ctx.broke(ob, f'SplineBasis2D.__init__ no longer has the pinned shape: {exc}')
+
+
+OK_ROWS = """
+Definition ok (c : nat * list float * list float * list float * list nat * list nat) : bool :=
+  let '(k, x, knots, d, r, ci) := c in
+  let '(d', r', c') := make_design_matrix Num_F x knots k in
+  fl_eqb d d' && nl_eqb r r' && nl_eqb ci c'.
+Eval vm_compute in (bad ok cases).
+"""
+
+
+def correspondence_2d(ctx):
+    """Bit-exact: the CSR rows of SplineBasis2D.basis_r / basis_c against the binary64 model of __make_design_matrix
+    evaluated on the x resp. z THE CALLER PASSED and on knots computed from that axis by the 1-D _spline_knots."""
+    S = su()
+    from pybaselines.two_d._spline_utils import SplineBasis2D
+    rng = np.random.default_rng(ctx.seed + 2012)
+    lits, metas = [], []
+    for c in range(ctx.n(48, 320)):
+        fam, x, z, nks, ks = gen_2d(rng, c)
+        case = {'kind': 'basis2d', 'x': x.tolist(), 'z': z.tolist(), 'num_knots': list(nks), 'degree': list(ks), 'family': fam}
+        try:
+            sb = SplineBasis2D(x, z, nks, ks)
+        except Exception as exc:  # noqa
+            ctx.fail('basis2d:exception', f'SplineBasis2D raised {type(exc).__name__}: {exc}', case)
+            continue
+        for side, ax, nk, k, B in (('r', x, nks[0], ks[0], sb.basis_r), ('c', z, nks[1], ks[1], sb.basis_c)):
+            knots = S._spline_knots(ax, nk, k, True)
+            B = B.tocsr()
+            rows = np.repeat(np.arange(B.shape[0]), np.diff(B.indptr))
+            lits.append(f'({k}, {fl(ax)}, {fl(knots)}, {fl(B.data)}, {nl(rows)}, {nl(B.indices)})')
+            metas.append(case)
+        ctx.case(('basis2d', fam, x.tobytes(), z.tobytes(), nks, ks), nontrivial=not np.array_equal(x, z),
+                 kind=f'basis2d-corr:{fam}:{"same" if nks[0] == nks[1] and ks[0] == ks[1] else "different"}-config')
+    return run_cases(ctx, 'rows2d', 'nat * list float * list float * list float * list nat * list nat', lits, OK_ROWS, 100,
+                     'correspondence:SplineBasis2D.basis_r/basis_c-rows-bit-exact-vs-model-on-own-axis',
+                     'SplineBasis2D basis_r / basis_c', lambda i: metas[i])
+
+
+def oracle_2d(ctx, budget):
+    rng = np.random.default_rng(ctx.seed + 2121)
+    # fixed witnesses: axes inside np.allclose's tolerance but not identical
+    xw = np.linspace(1000.0, 1100.0, 40)
+    fixed = [(xw, xw + 0.009 * np.sin(np.arange(40.0)), (8, 8), (3, 3)),
+             (np.linspace(3000.0, 3010.0, 25), np.linspace(3000.0, 3010.0, 25) + 0.02, (6, 6), (2, 2))]
+    cases = [('fixed-close', x, z, nks, ks) for x, z, nks, ks in fixed]
+    for c in range(48 * budget):
+        cases.append(gen_2d(rng, c))
+    for i, (fam, x, z, nks, ks) in enumerate(cases):
+        scalar = (nks[0] == nks[1] and ks[0] == ks[1] and i % 2 == 0)      # also the scalar form of the arguments (defaults path)
+        case = {'kind': 'basis2d', 'x': x.tolist(), 'z': z.tolist(), 'num_knots': list(nks), 'degree': list(ks), 'family': fam,
+                'scalar_args': scalar}
+        ctx.case(('basis2d-oracle', fam, x.tobytes(), z.tobytes(), nks, ks), nontrivial=not np.array_equal(x, z),
+                 kind=f'oracle-basis2d:{fam}')
+        try:
+            with warnings.catch_warnings():
+                warnings.simplefilter('ignore')
+                err = check_basis_2d(x, z, nks, ks, scalar)
+        except Exception as exc:  # noqa
+            err = (f'basis2d:exception:{type(exc).__name__}', f'SplineBasis2D raised {type(exc).__name__}: {exc}')
+        if err:
+            ctx.fail(err[0], err[1] + f' [family {fam}, num_knots {nks}, degree {ks}, N {len(x)}, M {len(z)}]', case)
+
+
 def run(ctx):
     ctx.rule = ('penalized knot vectors from _spline_knots with num_knots 2..200, degree 0..6; x ranges ordinary, SCALED by 1e-15/1e-12/1e-9/1e-6/1e6/1e12/1e-300 '
                 '(and 1e-310, denormal, in the bit-exact cases) and OFFSET by +-1e6/+-1e12; x kinds '
@@ -636,10 +845,13 @@ def run(ctx):
     ]
     ctx.gate()
     ok = ctx.build_props()
+    pin_init_2d(ctx)
     bad = correspondence(ctx)
+    bad |= correspondence_2d(ctx)
     budget = 1 if (ok and not bad and not ctx.broken and ctx.tier == 'quick') else 5
     oracle(ctx, budget)
-    ctx.note(f'oracle budget x{budget}; NOT covered: 2-D _make_btwb face-splitting (left to C20), _spline_knots(penalized=False) '
+    oracle_2d(ctx, budget)
+    ctx.note(f'oracle budget x{budget}; 2-D: SplineBasis2D construction (each side vs its own axis, _G_r/_G_c, full basis, _make_btwb vs dense Kronecker on small sizes) is oracle + bit-exact rows, the reshape/transpose algebra of _make_btwb is proved in C20 not here; NOT covered: _spline_knots(penalized=False) '
              'percentile knots only through hand-made clamped knot vectors, _basis_midpoints; values are compared with SciPy up to 1e-11, '
              'not bit-for-bit; theorems are exact-arithmetic (float rounding outside)')
 
@@ -659,6 +871,14 @@ def replay(rep):
         except Exception as exc:  # noqa
             err = f'solve_pspline raised {type(exc).__name__}: {exc}'
         print('replay btb:', err or 'property holds on this input')
+        return 1 if err else 0
+    if kind == 'basis2d':
+        try:
+            err = check_basis_2d(np.array(case['x']), np.array(case['z']), tuple(case['num_knots']), tuple(case['degree']),
+                                 case.get('scalar_args', False))
+        except Exception as exc:  # noqa
+            err = f'SplineBasis2D raised {type(exc).__name__}: {exc}'
+        print('replay basis2d:', err or 'property holds on this input')
         return 1 if err else 0
     if kind == 'slow-unsorted':
         msg = slow_unsorted_probe(np.array(case['x']), case['num_knots'], case['degree'])
